@@ -154,7 +154,6 @@ Definition show_outcome (r : res (list string * option (value Z))) : string :=
   | Err e => "R:E:" ++ e
   | Wrong => "R:P"
   | Fuel => "R:F"
-  | Stale => "R:S"
   end.
 
 (* ---- dump of the compiled code *)
@@ -213,10 +212,9 @@ Definition show_compiled (c : @compiled Z) : string :=
 Definition has_marker (c : @compiled Z) : bool :=
   existsb (fun ch => existsb is_marker (snd ch)) (p_chunks c).
 
-(* one correspondence case: machine | static reference | checked reference | dump *)
+(* one correspondence case: machine | reference | dump *)
 Definition show_case (fuel mfuel : nat) (p : program Z) : string :=
   let c := compile (procs zops) p in
   (if has_marker c then "R:P" else show_outcome (Machine.run zops c mfuel))
-  ++ " || " ++ show_outcome (run_static zops fuel p)
-  ++ " || " ++ show_outcome (run_checked zops fuel p)
+  ++ " || " ++ show_outcome (run_ref zops fuel p)
   ++ " || " ++ show_compiled c.
